@@ -27,7 +27,7 @@ func init() {
 			"oracles: (1) parallel walk tree==document, every cursor reachable once; (2) Pos() unique, 0 only for root, strictly increasing in document order element<ns<attrs<children<following; (3) Parent() of every listed cursor is the lister; (4) namespace prefix map per element = inherited overridden by prefix; " +
 			"(5) trace monitor: call depth sampled inside Pull() <= 96 + 8*nesting depth; (6) child process with 64 MiB max stack survives the flat builds. distinct_nontrivial = distinct document shape signatures with >= 3 nodes",
 		Assumptions: []string{"runtime.Callers depth is a faithful proxy for goroutine stack use", "a Namespace event with empty prefix and empty value is not generated (its meaning is not fixed by the Parser contract)"},
-		NCases:      func(tier string) int { return map[string]int{"quick": 4000, "thorough": 80000}[tier] },
+		NCases:      func(tier string) int { return map[string]int{"quick": 60000, "thorough": 2000000}[tier] },
 		Case:        c10Case,
 		Post:        c10Post,
 	})
